@@ -1,0 +1,160 @@
+// Copyright 2023 The Go Authors. All rights reserved.
+// Use of this source code is governed by a BSD-style
+// license that can be found in the LICENSE file.
+
+//go:build verif && (!goexperiment.jsonv2 || !go1.25)
+
+package json
+
+// Contracts for the reflection-free kernels of the arshal layer.
+
+// ---------------------------------------------------------------- uintSet
+//
+// View: the set of naturals i with usMember(lo, hi, i). The struct unmarshaler
+// (and the marshaler of embedded fallback members) uses it to detect a second
+// occurrence of a field; representation invariant usSpare: the spare capacity
+// of hi is zero (insert re-slices hi to its capacity after growing it).
+
+//@ spec usMember
+func usMember(lo uintSet64, hi []uintSet64, i uint) bool {
+	if i < 64 {
+		return lo>>i&1 == 1
+	}
+	return (i-64)/64 < uint(len(hi)) && hi[(i-64)/64]>>((i-64)%64)&1 == 1
+}
+
+//@ func (uintSet64).has
+//@ inline
+//@ theory bv
+//@ property C08 C20
+
+//@ func (*uintSet64).set
+//@ inline
+//@ theory bv
+//@ property C08 C20
+
+//@ func (*uintSet).has
+//@ theory bv
+//@ property C08 C04 C20
+//@ requires s != nil
+//@ ensures result == usMember(s.lo, s.hi, i)
+
+// insert(i) reports whether i was absent, adds it, and leaves every other
+// member as it was — in particular across the growth of hi.
+//
+//@ func (*uintSet).insert
+//@ theory bv
+//@ property C08 C04 C20
+//@ requires s != nil && i < 1<<40
+//@ requires spare: vForall(len(s.hi), cap(s.hi), func(k int) bool { return s.hi[:cap(s.hi)][k] == 0 })
+//@ modifies s.lo, s.hi, s.hi[:cap(s.hi)]
+//@ ensures first: result == !old(usMember(s.lo, s.hi, i))
+//@ ensures member: usMember(s.lo, s.hi, i)
+//@ ensures others: vForall(0, 1<<41, func(j int) bool { return uint(j) == i || usMember(s.lo, s.hi, uint(j)) == old(usMember(s.lo, s.hi, uint(j))) })
+//@ ensures spare: vForall(len(s.hi), cap(s.hi), func(k int) bool { return s.hi[:cap(s.hi)][k] == 0 })
+
+// ---------------------------------------------------------------- arshal_time.go
+
+// negateSecNano negates the timestamp sec + nsec/1e9 exactly, keeping the
+// nanoseconds in [0, 1e9).
+//
+//@ func negateSecNano
+//@ property C04 C10 C20
+//@ requires 0 <= nsec && nsec < 1000000000 && !(sec == -1<<63 && nsec == 0)
+//@ ensures nano-range: 0 <= result1 && result1 < 1000000000
+//@ ensures negated: result0*1000000000+result1 == -(sec*1000000000+nsec)
+
+//@ func mayAppendDurationSign
+//@ theory bv
+//@ property C04 C20
+//@ modifies b[len(b):cap(b)]
+//@ ensures alias: sameOrFresh(result0, b)
+//@ ensures magnitude: (d >= 0 ==> result1 == uint64(d)) && (d < 0 ==> result1 == 0-uint64(d))
+//@ ensures sign: len(result0) == len(b)+ite(d < 0, 1, 0) && (d < 0 ==> result0[len(b)] == '-')
+//@ ensures prefix: vForall(0, len(b), func(k int) bool { return result0[k] == old(b[k]) })
+
+//@ func mayApplyDurationSign
+//@ theory bv
+//@ property C04 C20
+//@ ensures result == ite(neg, -time.Duration(n), time.Duration(n))
+
+//@ func consumeSign
+//@ property C04 C20
+//@ ensures minus: len(b) > 0 && b[0] == '-' ==> result1 && len(result0) == len(b)-1 && vForall(0, len(result0), func(k int) bool { return result0[k] == b[k+1] })
+//@ ensures plus: len(b) > 0 && b[0] == '+' && allowPlus ==> !result1 && len(result0) == len(b)-1 && vForall(0, len(result0), func(k int) bool { return result0[k] == b[k+1] })
+//@ ensures none: !(len(b) > 0 && (b[0] == '-' || (b[0] == '+' && allowPlus))) ==> !result1 && len(result0) == len(b) && vForall(0, len(result0), func(k int) bool { return result0[k] == b[k] })
+
+//@ func parseDec2
+//@ property C04 C20
+//@ ensures len(b) >= 2 && '0' <= b[0] && b[0] <= '9' && '0' <= b[1] && b[1] <= '9' ==> int(result) == 10*int(b[0]-'0')+int(b[1]-'0')
+//@ ensures len(b) < 2 ==> result == 0
+
+//@ extern bytes.IndexByte(b []byte, c byte) (result int)
+//@ trusted bytes: index of the first occurrence of c, or -1
+//@ ensures -1 <= result && result < len(b)
+//@ ensures result >= 0 ==> b[result] == c && vForall(0, result, func(k int) bool { return b[k] != c })
+//@ ensures result < 0 ==> vForall(0, len(b), func(k int) bool { return b[k] != c })
+
+//@ func bytesCutByte
+//@ property C04 C20
+//@ ensures split: len(result0) <= len(b) && vForall(0, len(result0), func(k int) bool { return result0[k] == b[k] && b[k] != c })
+//@ ensures found: len(result0) < len(b) ==> b[len(result0)] == c && len(result1) == len(b)-len(result0)-ite(include, 0, 1) && vForall(0, len(result1), func(k int) bool { return result1[k] == b[len(b)-len(result1)+k] })
+//@ ensures absent: len(result0) == len(b) ==> len(result1) == 0
+
+//@ extern time.(Time).Unix() (result int64)
+//@ trusted time: seconds since the epoch; a time.Time cannot represent seconds beyond +-2^62 (wall/ext encoding covers years -292277022399 .. 292277026596)
+//@ ensures -1<<62 < result && result < 1<<62
+
+//@ extern time.(Time).Nanosecond() (result int)
+//@ trusted time: nanosecond offset within the second
+//@ ensures 0 <= result && result < 1000000000
+
+//@ extern strconv.AppendUint(dst []byte, i uint64, base int) (result []byte)
+//@ trusted strconv: appends the decimal spelling of i (1..20 digits for base 10)
+//@ modifies dst[len(dst):cap(dst)]
+//@ ensures sameOrFresh(result, dst)
+//@ ensures len(result) >= len(dst)+1 && len(result) <= len(dst)+64
+//@ ensures vForall(0, len(dst), func(k int) bool { return result[k] == old(dst[k]) })
+//@ ensures vForall(len(dst), len(result), func(k int) bool { return '0' <= result[k] && result[k] <= 'z' })
+
+//@ extern bytes.TrimRight(s []byte, cutset string) (result []byte)
+//@ trusted bytes: a prefix of s (same array, same start)
+//@ ensures len(result) <= len(s) && sameSlice(result, s[:len(result)])
+//@ ensures vForall(len(result), len(s), func(k int) bool { return inCutset(s[k], cutset) })
+//@ ensures len(result) == 0 || !inCutset(s[len(result)-1], cutset)
+
+//@ spec inCutset
+func inCutset(c byte, cutset string) bool {
+	return vExists(0, len(cutset), func(i int) bool { return cutset[i] == c })
+}
+
+// appendPaddedBase10 / appendFracBase10: thin contracts (append-only, bounds).
+//
+//@ func appendPaddedBase10
+//@ property C04 C20
+//@ requires max10 >= 10
+//@ modifies b[len(b):cap(b)]
+//@ ensures alias: sameOrFresh(result, b)
+//@ ensures length: len(result) > len(b)
+//@ ensures prefix: vForall(0, len(b), func(k int) bool { return result[k] == old(b[k]) })
+
+//@ func appendFracBase10
+//@ property C04 C20
+//@ requires max10 >= 10
+//@ modifies b[len(b):cap(b)]
+//@ ensures alias: sameOrFresh(result, b)
+//@ ensures length: len(result) >= len(b)
+//@ ensures prefix: vForall(0, len(b), func(k int) bool { return result[k] == old(b[k]) })
+
+// appendTimeUnix: the scaled integer part sec*pow10 + nsec/(1e9/pow10) is
+// computed without wrap-around in the branch that multiplies (the other
+// branches print sec and the sub-second digits separately), for every
+// representable time and every unit.
+//
+//@ func appendTimeUnix
+//@ property C04 C10 C20
+//@ requires pow10 == 1 || pow10 == 1000 || pow10 == 1000000 || pow10 == 1000000000
+//@ modifies b[len(b):cap(b)]
+//@ ensures alias: sameOrFresh(result, b)
+//@ ensures prefix: vForall(0, len(b), func(k int) bool { return result[k] == old(b[k]) })
+//@ at call strconv.AppendUint#1 assert no-wrap: sec >= 0 && uint64(sec) < 18446744073 && (uint64(sec)*pow10)/pow10 == uint64(sec) && uint64(sec)*pow10+uint64(nsec)/(1000000000/pow10) >= uint64(sec)*pow10
